@@ -12,7 +12,7 @@ trap 'rm -rf "$W" "$SV"' EXIT
 cp -r /repo/. "$W/"; rm -rf "$W/.git"; cp "$M/$REL" "$W/$REL"
 cd "$W"
 if ! go build ./... >/dev/null 2>&1; then echo "{\"m\":\"$M\",\"stage\":\"nobuild\"}"; exit 0; fi
-if ! timeout 120 go test -vet=off -count=1 ./... >/dev/null 2>&1; then echo "{\"m\":\"$M\",\"stage\":\"killed\"}"; exit 0; fi
+if ! timeout 25 go test -vet=off -count=1 ./... >/dev/null 2>&1; then echo "{\"m\":\"$M\",\"stage\":\"killed\"}"; exit 0; fi
 cp /verif/mut/zz_diffhash_test.go.txt "$W/zz_diffhash_test.go"
 FP=$(timeout 300 go test -vet=off -count=1 -v -run TestDiffHash . 2>/dev/null | grep FINGERPRINT | awk '{print $2}')
 rm -f "$W/zz_diffhash_test.go"
